@@ -35,6 +35,7 @@ pub fn run(a: &Args) -> i32 {
     surrealkv::verif::set_manual_background(true);
     let mut run = Run::new("C07", a.tier, a.seed, "fault_enumeration");
     crate::scenarios::run_for(&mut run, "C07");
+    crate::matrix::run_for(&mut run, "C07");
     let mut c = campaign(a);
     // reopen much more often than the generic generator does
     c.gen.placement_pct = 45;
